@@ -418,7 +418,7 @@ func genBatch(t *rapid.T) batch {
 }
 
 func props() []rp.Prop {
-	return []rp.Prop{rp.P[batch]{Name: "batch", Checks: ev.Pick(160, 4800) / ev.Shards(), Gen: genBatch, Check: check}}
+	return []rp.Prop{rp.P[batch]{Name: "batch", Checks: ev.Pick(160, 9600) / ev.Shards(), Gen: genBatch, Check: check}}
 }
 
 func TestC09(t *testing.T)    { rp.RunAll(t, props()...) }
